@@ -482,6 +482,10 @@ RULE_CASES = [
     ('pattern-ml', "start = /(?x)\n a   # x\n b/ $ ;"),
     ('pattern-spaces', "start = / a/ | /a / $ ;"),
     ('pattern-nl', "start = /a\nb/ $ ;"),
+    ('pattern-nl-slash', "start = /a\n\/b/ | ?\"x/y\" | ?'x/\"y' $ ;"),
+    ('constant-ml', "start = 'a' ```x\n  y``` $ ;"),
+    ('constant-ml-ref', "start = n:'a' ```{n}\n{n}``` $ ;"),
+    ('alert-ml', "start = 'a' ^^```x\n  y``` $ ;"),
 ]
 RULE_EXTRA_INPUTS = ['A', 'AB', 'A B', 'a-b', 'a-a', 'a,a', 'a , a', 'a,b', 'a ,b', 'a,,b', 'a/b', 'a//b\n', 'a/*x*/b', 'a,x,b', 'a,x\nb',
                      'a#x#b', 'a ;x\n- b', 'a-a-a', 'A-a', 'kw03word', 'kw03word a', 'b', 'B', 'x', 'ab', 'a b', 'a  b', 'a\tb', 'a\nb',
